@@ -77,6 +77,9 @@ CONTROLS = {
         ("allocation in a destructor", E, "  ClipperBase::~ClipperBase()\n  {\n    Clear();\n  }",
          "  ClipperBase::~ClipperBase()\n  {\n    Clear();\n    outrec_list_.reserve(16);\n  }", "ALLOC.noexcept"),
         ("comparator not irreflexive", E, "        return locMin2->vertex->pt.x > locMin1->vertex->pt.x;", "        return locMin2->vertex->pt.x >= locMin1->vertex->pt.x;", "T.comparator"),
+        ("DoSplitOp publishes the detached pair before the allocation", E, "      newOr->owner = outrec->owner;\n", "      newOr->owner = outrec->owner;\n      newOr->pts = splitOp;\n", "LINK.consistent-at-throw"),
+        ("AddOutPt leaves the ring open", E, "    op_front->next = new_op;\n", "", "LINK.consistent-at-throw"),
+        ("DisposeOutPt deletes before unlinking", E, "    op->prev->next = op->next;\n    op->next->prev = op->prev;\n    delete op;", "    delete op;\n    op->prev->next = op->next;\n    op->next->prev = op->prev;", "LINK.consistent-at-throw"),
     ],
     "C11": [
         ("precision no longer validated in RectClip(PathsD)", H + "clipper.h",
@@ -103,6 +106,8 @@ CONTROLS = {
          "\tstatic double last_dx = 0;\n\tdouble dx = static_cast<double>(pt2.x - pt1.x);\n\tlast_dx = dx;\n\tdouble dy = static_cast<double>(pt2.y - pt1.y);\n\tdouble inverse_hypot", "R1.local-static"),
         ("shared vertex written during execution", E, "    e->vertex_top = NextVertex(*e);\n    e->top = e->vertex_top->pt;\n    e->curr_x = e->bot.x;",
          "    e->vertex_top = NextVertex(*e);\n    e->vertex_top->flags = e->vertex_top->flags | VertexFlags::Empty;\n    e->top = e->vertex_top->pt;\n    e->curr_x = e->bot.x;", "R2.vertex-write"),
+        ("shared container gets a mutable field", H + "clipper.engine.h", "\t\tfriend class ClipperBase;\n\t\tLocalMinimaList minima_list_;\n\t\tstd::vector<Vertex*> vertex_lists_;\n\t\tvoid AddLocMin",
+         "\t\tfriend class ClipperBase;\n\t\tmutable LocalMinimaList minima_list_;\n\t\tstd::vector<Vertex*> vertex_lists_;\n\t\tvoid AddLocMin", "R2b.container-read-only"),
     ],
     "C15": [
         ("one crossing vertex no longer reaches SetZ", E, "      resultOp = AddOutPt(e2, pt);\n      if (zCallback_) SetZ(e1, e2, resultOp->pt);", "      resultOp = AddOutPt(e2, pt);", "Z.must-follow"),
